@@ -32,6 +32,7 @@ struct CHopt : persistence_matrix::Default_options<persistence_matrix::Column_ty
   static const bool has_column_pairings = true;
   static const bool has_vine_update = true;
   static const bool has_row_access = true;
+  static const persistence_matrix::Column_indexation_types column_indexation_type = persistence_matrix::Column_indexation_types::POSITION;
 };
 typedef persistence_matrix::Matrix<RUopt> RU;
 typedef persistence_matrix::Matrix<CHopt> CH;
@@ -76,7 +77,7 @@ static uint64_t tree_work(const Simplices& data, const T& shared, unsigned seed)
     e.prune_above_dimension(1);
     acc += tree_sum(a) + 3 * tree_sum(b) + 5 * tree_sum(c) + 7 * tree_sum(d) + 11 * tree_sum(e);
     // serialise own and shared, deserialise into fresh trees
-    for (const T* src : {&a, &shared, &e}) {
+    for (const T* src : std::vector<const T*>{&a, &shared, &e}) {
       size_t n = src->get_serialization_size();
       char* buf = new char[n];
       src->serialize(buf, n);
